@@ -97,6 +97,19 @@ def run_case(rng, tier, case):
                 case.check('value.second_optimize_same_value', abs(float(res_2.value) - float(r.res.value)) <= tolv, first=float(r.res.value), second=float(res_2.value), split=split)
         except Exception as e:
             case.check('value.second_optimize_works', False, split=split, error='%s: %s' % (type(e).__name__, str(e)[:160]))
+    if not one_call and rng.random() < (0.5 if split else 0.15):
+        # rolling re-planning: the same portfolio set up again with the first part of the horizon fixed to the solution just found (for a split
+        # problem: whole intervals are fixed) - the value reported for that run is again the sum of its cash-flow table
+        T_ = r.built.timegrid.T
+        kq = int(rng.integers(max(1, T_ // 3), T_ + 1))
+        rfx = flow.run_portfolio(spec, split=split, built=r.built, fix_time_window={'I': np.arange(T_) < kq, 'x': np.asarray(r.res.x, float).copy()})
+        if rfx.ok and rfx.solved:
+            case.feature('rerun_with_fixed_window' + (':split' if split else ''))
+            mon_value_accounting(case, r.built.portfolio, rfx.res, rfx.out, flow.top_setups(rfx.rec), T_)
+            tolv = (1e-5 if not gen.is_mip(spec) else 2e-3) * (1 + abs(float(r.res.value)))
+            case.check('value.fixed_rerun_same_value', abs(float(rfx.res.value) - float(r.res.value)) <= tolv, first=float(r.res.value), fixed_rerun=float(rfx.res.value), split=split, steps_fixed=kq)
+        elif not rfx.ok and rfx.stage in ('optimize', 'extract'):
+            case.check('value.fixed_rerun_works', False, split=split, error=flow.describe_error(rfx))
     if not split and not gen.is_mip(spec) and rng.random() < 0.25:
         # "every optimised portfolio": the robust target (spelled as users spell it) on the same problem object, extracted the same way
         import eaopack.io as eio
